@@ -45,7 +45,11 @@ func CreateEmsgAhead(segStart, segEnd, timescale uint64, perMinute int) (*mp4.Em
 	case 3:
 		spliceInsertTimes = []uint64{minuteStart + 10*timescale, minuteStart + 36*timescale, minuteStart + 46*timescale}
 	}
-	// We do not need to look into next minute, since first start is 10s after full minute.
+	// The first splice of the next minute is announced 3s into that minute, which may be
+	// inside a segment that started in this minute. Therefore also consider the next minute.
+	for i, n := 0, len(spliceInsertTimes); i < n; i++ {
+		spliceInsertTimes = append(spliceInsertTimes, spliceInsertTimes[i]+60*timescale)
+	}
 	inInterval := false
 	var spliceTime uint64
 	for _, sit := range spliceInsertTimes {
